@@ -176,7 +176,10 @@ MasterStep(e) ==
 
 ApiStep(e) ==
     \E r \in {Step(st, e.a)} :
-    CASE r.out = "unsupported" ->
+    CASE e.o = 0 /\ r.out # "unsupported" ->
+           \* a step of a long behaviour that was not observed: follow the implementation's verdict
+           st' = IF e.res = "ok" /\ r.out # "refuse" THEN r.acc ELSE st
+      [] r.out = "unsupported" ->
            \* outside the model: the rest of this trace is not judged
            /\ PrintT(<<"SKIP", ToJson([tid |-> Traces[tid].id, step |-> l, act |-> e.a.a, why |-> r.why])>>)
            /\ st' = [st EXCEPT !.phase = "skipped"]
